@@ -1,7 +1,7 @@
 /-
 C05 — Loading and re-writing a RapidPro export is lossless.
 -/
-import Rpft.Document
+import Rpft.DocumentSpec
 import Rpft.Gen.Tables
 set_option linter.unusedSimpArgs false
 set_option linter.unusedVariables false
@@ -26,5 +26,92 @@ theorem tables_agree :
     Gen.actionPassThrough = passThroughTypes ∧
     Gen.actionTypes.filter (fun t => !Gen.actionPassThrough.contains t) = specialTypes ∧
     Gen.routerTests = routerTests ∧ Gen.routerNoArgTests = noArgTests := by decide
+
+/-! ### legacy triggers -/
+
+/-- A legacy single-keyword trigger (`keyword`, no `keywords`) comes out carrying both
+forms: the old `keyword` unchanged and the new `keywords = [keyword]` (`[]` for `null`). -/
+theorem legacy_trigger (t : TriggerD) (k : Blob) (tc : TriggerC)
+    (hk : t.keyword = some k) (hks : t.keywords = none) (h : loadTrigger t = .ok tc) :
+    (renderTrigger tc).keyword = some k ∧
+    (renderTrigger tc).keywords = some (if isNull k then [] else [k]) := by
+  unfold loadTrigger at h
+  simp only [hk, hks] at h
+  by_cases hc : (t.type = strK ∧ firstFalsy (if isNull k = true then [] else [k]) = true)
+  · rw [if_pos hc] at h; cases h
+  · rw [if_neg hc] at h
+    cases h
+    by_cases hn : isNull k = true
+    · have : k = jNull := by simpa [isNull] using hn
+      subst this
+      simp [renderTrigger, isNull]
+    · simp [renderTrigger, hn]
+
+/-- non-vacuity of `legacy_trigger`: a concrete legacy keyword trigger loads -/
+def wLegacy : TriggerD :=
+  { type := strK, keyword := some "\"hi\"".toList, keywords := none, channel := jNull, matchType := none,
+    flow := { name := "f".toList, uuid := "u".toList }, groups := [], excludeGroups := none }
+example : (match loadTrigger wLegacy with | .ok _ => true | .error _ => false) = true := by decide
+
+/-! ### concrete documents: non-vacuity and negative witnesses -/
+
+section witnesses
+
+def wExit (u : String) : ExitD := { uuid := u.toList, dest := none }
+def wFlow (nodes : List NodeD) : FlowD :=
+  { uuid := "f1".toList, name := "flow".toList, language := "\"eng\"".toList, type := "\"messaging\"".toList,
+    specVersion := "\"13.1.0\"".toList, revision := "1".toList, expire := "10080".toList,
+    metadata := jEmptyObj, localization := jEmptyObj, nodes := nodes, ui := none }
+def wDoc (nodes : List NodeD) (groups : List GroupD := []) : DocD :=
+  { campaigns := [], fields := jEmptyArr, flows := [wFlow nodes], groups := groups,
+    site := "\"https://example.org\"".toList, triggers := [], version := "\"13\"".toList }
+def wCat (u name e : String) : CategoryD := { uuid := u.toList, name := name.toList, exitUuid := e.toList }
+def wSwitch (cats : List CategoryD) (dflt : String) : RouterD :=
+  .switch "\"@input.text\"".toList [] cats dflt.toList none none
+
+/-- default category last, exits in category order: inside every hypothesis -/
+def docGood : DocD :=
+  wDoc [{ uuid := "n1".toList, actions := [], exits := [wExit "e1", wExit "e2"],
+          router := some (wSwitch [wCat "c1" "Yes" "e1", wCat "c2" "Other" "e2"] "c2") }]
+
+/-- the default category comes first (F-C05-c) -/
+def docDefaultFirst : DocD :=
+  wDoc [{ uuid := "n1".toList, actions := [], exits := [wExit "e2", wExit "e1"],
+          router := some (wSwitch [wCat "c2" "Other" "e2", wCat "c1" "Yes" "e1"] "c2") }]
+
+/-- exits not in category order (F-C05-d) -/
+def docExitsPermuted : DocD :=
+  wDoc [{ uuid := "n1".toList, actions := [], exits := [wExit "e2", wExit "e1"],
+          router := some (wSwitch [wCat "c1" "Yes" "e1", wCat "c2" "Other" "e2"] "c2") }]
+
+/-- a typed contact-field reference (F-C05-a) -/
+def docTypedField : DocD :=
+  wDoc [{ uuid := "n1".toList, router := none, exits := [wExit "e1"],
+          actions := [.setContactField "\"a1\"".toList "\"Age\"".toList "\"age\"".toList (some "\"number\"".toList) "\"7\"".toList] }]
+
+/-- a top-level group with a query (F-C05-b) -/
+def docGroupQuery : DocD :=
+  wDoc [] [{ name := "g".toList, uuid := "u".toList, query := some "\"age > 18\"".toList }]
+
+end witnesses
+
+/-- the round trip of the good document is lossless (computed by the kernel) -/
+theorem docGood_lossless : lossless docGood = true := by decide
+
+/-- **negative witness** for `OrderedCats`: without it the statement is false — the
+document is valid, its exits follow its categories, yet the round trip reorders it. -/
+theorem render_load_needs_OrderedCats :
+    (∀ n ∈ allNodes docDefaultFirst, exitsByCats n = true) ∧ lossless docDefaultFirst = false := by decide
+
+/-- **negative witness** for `ExitsByCats`. -/
+theorem render_load_needs_ExitsByCats :
+    (∀ n ∈ allNodes docExitsPermuted, (n.router.map orderedRouter).getD true = true) ∧
+    lossless docExitsPermuted = false := by decide
+
+/-- **negative witness** for `UntypedFields` (F-C05-a). -/
+theorem render_load_needs_UntypedFields : lossless docTypedField = false := by decide
+
+/-- **negative witness** for `PlainGroups` (F-C05-b). -/
+theorem render_load_needs_PlainGroups : lossless docGroupQuery = false := by decide
 
 end Rpft.Props.C05
